@@ -197,7 +197,13 @@ def spec_tree(base_dir: str, d=None):
         for e in it:
             if e.is_symlink():
                 tgt = os.readlink(e.path)
-                absolute = os.path.normpath(os.path.join(os.path.dirname(e.path), tgt))
+                # where the link LEADS: the directories on the way are followed physically ('x/..' through a directory link x is not a no-op),
+                # the last component is taken by name (which in-directory entry the link names)
+                joined = os.path.join(os.path.dirname(e.path), tgt).rstrip("/") or "/"
+                if os.path.basename(joined) in ("..", ".", ""):
+                    absolute = os.path.realpath(joined)
+                else:
+                    absolute = os.path.join(os.path.realpath(os.path.dirname(joined)), os.path.basename(joined))
                 rel = os.path.relpath(absolute, base_dir)
                 if rel == ".." or rel.startswith("../"):
                     raise Outside(e.path)
@@ -524,7 +530,7 @@ def part_streams(rec, tier, seed, td: Path):
 # ------------------------------------------------------------------ outside links
 
 OUTSIDE_VARIANTS = ["abs-file", "abs-dir", "abs-etc-hostname", "abs-tmp", "rel-file", "rel-dir", "rel-dangling", "abs-dangling", "parent-dir",
-                    "prefix-sibling", "down-then-up", "nested-rel-file", "nested-abs-file", "nested-abs-dir"]
+                    "prefix-sibling", "down-then-up", "nested-rel-file", "nested-abs-file", "nested-abs-dir", "up-through-a-directory-link"]
 
 
 def outside_setup(variant, td: Path):
@@ -546,7 +552,10 @@ def outside_setup(variant, td: Path):
         "abs-dangling": ("lnk", "/nonexistent_c19_xyz/q"), "parent-dir": ("lnk", ".."), "prefix-sibling": ("lnk", "../base2/f"),
         "down-then-up": ("lnk", "sub/../../outside_file"), "nested-rel-file": ("sub/inner/lnk", "../../../outside_file"),
         "nested-abs-file": ("sub/inner/lnk", str(root / "outside_file")), "nested-abs-dir": ("sub/lnk", str(root / "outside_dir")),
+        "up-through-a-directory-link": ("sub/inner/lnk", "top/../outside_file"),  # top -> ../.. is the directory: top/.. is its PARENT
     }[variant]
+    if variant == "up-through-a-directory-link":
+        os.symlink("../..", bd / "sub" / "inner" / "top")  # an in-directory link to the directory itself
     os.symlink(t[1], bd / t[0])
     return bd, f"{t[0]} -> {t[1]}"
 
